@@ -391,12 +391,14 @@ func specLayersOK(p *FrameParser) bool {
 //@ ensures[C12.select.synack] spec.FilterType == FilterTypeSYNACK ==> ret1 == nil && ret0 == tcpSynackFilter
 //@ ensures[C12.select.none]   !(spec.FilterType == FilterTypeICMP || spec.FilterType == FilterTypeUDP || spec.FilterType == FilterTypeSYNACK || spec.FilterType == FilterTypeTCP) ==> ret1 != nil && ret0 == nil
 //@ ensures[C12.select.nonempty] ret1 == nil ==> len(ret0) >= 1
+//@ ensures[C10.select.class]  ret1 != nil ==> noRepoErr(ret1)
 //@ ensures[C12.select.tcp]    spec.FilterType == FilterTypeTCP && !(spec.FilterConfig.Src.Addr().Is4() && spec.FilterConfig.Dst.Addr().Is4()) ==> ret1 != nil
 
 //@ func (FilterConfig).GenerateTCP4Filter
 //@ safety C12
 //@ ensures[C12.tcp.err]       !(c.Src.Addr().Is4() && c.Dst.Addr().Is4()) ==> ret1 != nil && ret0 == nil
 //@ ensures[C12.tcp.nonempty]  ret1 == nil ==> len(ret0) >= 1
+//@ ensures[C10.tcp.class]     ret1 != nil ==> noRepoErr(ret1)
 //@ note the program itself is covered by the bit-vector lemma packets.GenerateTCP4Filter#C12.exact (govc bpf)
 
 //@ func AllocPacketID
